@@ -3,17 +3,12 @@ package mc
 import (
 	"encoding/json"
 	"fmt"
+	"sync"
 	"testing"
 )
 
-func runCrashItem(e *Explorer, pd *PropDef, it *WorkItem, res *WorkResult) {
-	res.Err = "crash layer not built yet"
-}
-
-func replayCrash(t *testing.T, pd *PropDef, sc *Scenario, choices []string, v Violation) int {
-	fmt.Println("crash layer not built yet")
-	return 2
-}
+// crashRef carries the uninterrupted outcome of a crash scenario (by scenario name) to the recovery monitors.
+var crashRef sync.Map
 
 func replayInput(t *testing.T, pd *PropDef, v Violation, input json.RawMessage) int {
 	fmt.Println("input replay not built yet")
